@@ -183,6 +183,22 @@ for _pid, _subs in _STALE4.items():
             _t, _n = _t.replace(_a, _b), _n.replace(_a, _b)
     CLAIMED[_pid] = (_t, _n, _r)
 
+# ---- seventh round ----
+extend("C01", "VerifyRRSIGWithWork (per-signature check as an arbitrary oracle) declares a reply validated only if every RRset inside the signer zone - as a whole set, across answer and authority - was verified by a signature over that owner and type, and no record owned outside the zone sits in the answer section.")
+extend("C07", "the authority and additional sections an upstream attached to a positive answer do not reach the client (only the client's own OPT survives) and a negative answer keeps only SOA/NSEC/NSEC3/RRSIG.")
+extend("C10", "a lookup result shared by several callers of one singleflight is copied per caller with the caller's own query id, the shared message left untouched (scheduler outcomes arbitrary).")
+_STALE5 = {
+ "C01": [("Signature mathematics, DS-chain walking and the end-to-end SERVFAIL mapping are outside this check.", "Signature mathematics (C14), DS-chain walking across zones and the end-to-end SERVFAIL mapping are outside this check.")],
+ "C07": [("clearAdditional / filterAuthorityRecords on the client-facing reply are outside this check.", "The call sites of clearAdditional / filterAuthorityRecords inside the network-driven resolve loop are outside this check.")],
+ "C10": [("Real goroutine interleavings, the shared-lookup copy and DoH/DoQ are outside this check.", "Real goroutine interleavings and DoH/DoQ are outside this check.")],
+}
+for _pid, _subs in _STALE5.items():
+    _t, _n, _r = CLAIMED[_pid]
+    for _a, _b in _subs:
+        if _a in _t or _a in _n:
+            _t, _n = _t.replace(_a, _b), _n.replace(_a, _b)
+    CLAIMED[_pid] = (_t, _n, _r)
+
 NA_REASON = "no check registered yet: the solver-based harness for this property is still being built in this session (see DESIGN.md §5 for the plan)"
 def main():
     props = [json.loads(l) for l in open(os.path.join(ROOT, "properties.jsonl"))]
